@@ -20,7 +20,7 @@ ASSUMPTIONS = [
     "a transform mutating list-of-Feature inputs in place is the caller's business: inputs are rebuilt for every run",
 ]
 
-FORMS = ("path", "gz", "string", "list", "generator", "DataIterator", "DataIterator+kw", "FeatureDB")
+FORMS = ("path", "gz", "string", "list", "generator", "DataIterator", "DataIterator+kw", "FeatureDB", "path_crlf", "gz_crlf", "string_crlf", "path_oddname")
 TRANSFORMS = ("none", "modify", "drop-odd")
 
 
@@ -112,10 +112,15 @@ def expected_after(kind, texts, tname):
 def build_input(form, kind, texts, wd, cl, tf, tag):
     """-> (data, iterator kwargs, extra kwargs for create_db, source)"""
     text = "\n".join(texts) + "\n"
+    if form.endswith("_crlf"):
+        text = text.replace("\n", "\r\n")         # DOS line ends
+        form = form[:-5]
     src = None
     kw = dict(checklines=cl)
     if tf is not None and form != "DataIterator+kw":
         kw["transform"] = tf
+    if form == "path_oddname":
+        return dbutil.write_text(wd, "ann%s.gz.version2.txt" % tag, text), kw, src      # '.gz' inside the name, not a gzip file
     if form == "path":
         return dbutil.write_text(wd, "in%s.gff" % tag, text), kw, src
     if form == "gz":
@@ -170,7 +175,7 @@ def body_forms(ch, ctx):
                       sig, log=src.log)
 
     # 1b. a second iterator of the same form over ANOTHER annotation is created before the first is consumed
-    if form in ("path", "gz", "string", "list", "generator") and tname == "none":
+    if form in ("path", "gz", "string", "list", "generator", "string_crlf", "gz_crlf") and tname == "none":
         okind, on = ("gtf", 3) if kind == "gff3" else ("gff3", 3)
         otexts = texts_of(okind, on)
         dataA, kwA, _ = build_input(form, kind, texts, wd, cl, None, "A")
